@@ -86,6 +86,14 @@ XalanOutputStream::XalanOutputStream(
 
 
 
+static inline bool
+isHighSurrogate(XalanDOMChar    theChar)
+{
+    return 0xD800u <= theChar && theChar <= 0xDBFFu;
+}
+
+
+
 XalanOutputStream::~XalanOutputStream()
 {
     XalanTranscodingServices::destroyTranscoder(m_transcoder);
@@ -102,14 +110,45 @@ XalanOutputStream::write(
 
     if (theBufferLength + m_buffer.size() > m_bufferSize)
     {
-        flushBuffer();
+        // This leaves at most the first half of a surrogate
+        // pair in the buffer.
+        flushBufferForMore();
     }
 
     if (theBufferLength > m_bufferSize)
     {
-        assert(m_buffer.empty() == true);
+        assert(m_buffer.size() <= 1);
 
-        doWrite(theBuffer, theBufferLength);
+        if (m_buffer.empty() == false)
+        {
+            // The second half of the pair is the first code unit
+            // of this block.  Write the two together.
+            m_buffer.push_back(*theBuffer);
+
+            ++theBuffer;
+            --theBufferLength;
+
+            flushBuffer();
+        }
+
+        // Never end a block between the two halves of a surrogate
+        // pair: keep a trailing high surrogate for the next write.
+        if (theBufferLength != 0 &&
+            isHighSurrogate(theBuffer[theBufferLength - 1]) == true)
+        {
+            --theBufferLength;
+
+            if (theBufferLength != 0)
+            {
+                doWrite(theBuffer, theBufferLength);
+            }
+
+            m_buffer.push_back(theBuffer[theBufferLength]);
+        }
+        else if (theBufferLength != 0)
+        {
+            doWrite(theBuffer, theBufferLength);
+        }
     }
     else
     {
@@ -346,6 +385,32 @@ XalanOutputStream::flushBuffer()
     }
 
     assert(m_buffer.empty() == true);
+}
+
+
+
+void
+XalanOutputStream::flushBufferForMore()
+{
+    if (m_buffer.empty() == false &&
+        isHighSurrogate(m_buffer.back()) == true)
+    {
+        // The transcoder cannot consume half of a surrogate pair,
+        // so it must wait for the other half.  flush() still writes
+        // everything: a high surrogate that is never followed by
+        // anything is an error of the caller, and is reported as such.
+        const XalanDOMChar  theHighSurrogate = m_buffer.back();
+
+        m_buffer.pop_back();
+
+        flushBuffer();
+
+        m_buffer.push_back(theHighSurrogate);
+    }
+    else
+    {
+        flushBuffer();
+    }
 }
 
 
